@@ -287,6 +287,28 @@ def check_vector(v):
                     continue
                 n += 1
                 judge(pipe, cuts, outcome(fn, g, genome, lambda cls: _stream(rows, cuts, cls)))
+        if v["consumer"] == "exact" and rows and compatible and not ignored and len(genome) >= 2 and not v.get("derived"):
+            # a streamed track tied to this genome indexed by intervals tied to a SEPARATELY built genome: the same contigs in the same
+            # order give each interval the values of its own contig; in the opposite order the pair is refused (ReversedIsIncompatible)
+            for order, must_raise in ((list(genome), False), (list(genome)[::-1], True)):
+                def cross():
+                    from bionumpy.datatypes import Interval
+                    g2 = bnp.Genome.from_dict({nm: size for nm in order})
+                    track = g.get_track(_stream(rows, _chunkings(len(rows))[-1], "bedgraph"))
+                    ivs = g2.get_intervals(Interval([r[0] for r in rows], np.array([r[1] for r in rows]), np.array([r[2] for r in rows])))
+                    return [[float(x) for x in np.asarray(r_.to_array() if hasattr(r_, "to_array") else r_).tolist()] for r_ in bnp.compute(track[ivs])]
+                o = outcome(cross)
+                n += 1
+                if must_raise and o[0] == "ok":
+                    bad.append({"what": "a streamed track was indexed by intervals of a genome that lists the contigs in another order, without an error",
+                                "tags": {"pipeline": "track[intervals of another genome]", "mech": v["mech"], "consumer": v["consumer"], "compatible": True, "derived": False,
+                                         "underscore_included": bool(v.get("underscore_included")), "kind": "silent-completion"},
+                                "vector": v, "case": {"genome": genome, "other": order}, "expected": "an error", "observed": o[1]})
+                elif not must_raise and o != ("ok", [[1.0] for _ in rows]):
+                    bad.append({"what": "a streamed track indexed by intervals of an equal, separately built genome does not give each interval its own values",
+                                "tags": {"pipeline": "track[intervals of another genome]", "mech": v["mech"], "consumer": v["consumer"], "compatible": True, "derived": False,
+                                         "underscore_included": bool(v.get("underscore_included")), "kind": "wrong-slots"},
+                                "vector": v, "case": {"genome": genome, "other": order}, "expected": [[1.0] for _ in rows], "observed": o})
         if v["consumer"] == "exhaust" and rows:
             for cuts in _chunkings(len(rows)):
                 n += 1
@@ -310,14 +332,14 @@ def check_vector(v):
 
 
 GENOMES = {"G1": ["a"], "G2": ["a", "b"], "G3": ["a", "b", "c"], "G4": ["a", "b", "c", "d"],
-           "G3u": ["a", "b_u", "c"], "G3p": ["chr1", "chr11", "chr2"]}
+           "G3u": ["a", "b_u", "c"], "G3p": ["chr1", "chr11", "chr2"], "G3r": ["a", "b", "aa"]}
 
 
 def run(ctx):
     quick = ctx.tier == "quick"
-    invs = ["NoSilentDrop", "NoSpuriousError", "PrefixRight", "TypeOK", "Emit"]
+    invs = ["NoSilentDrop", "NoSpuriousError", "PrefixRight", "TypeOK", "ReversedIsIncompatible", "Emit"]
     vectors = []
-    plan = [("G1", "i_g"), ("G2", "i_g"), ("G3", "i_g"), ("G3u", ""), ("G3p", "")] + ([] if quick else [("G4", "i_g")])
+    plan = [("G1", "i_g"), ("G2", "i_g"), ("G3", "i_g"), ("G3u", ""), ("G3p", ""), ("G3r", "")] + ([] if quick else [("G4", "i_g")])
     for gname, ign in plan:
         for mech in ("iter_chromosomes", "synched_stream"):
             if mech == "synched_stream" and gname in ("G3u",):
